@@ -298,11 +298,89 @@ pub fn run_item(tier: Tier, item: usize) -> ItemResult {
     ItemResult { item, label: format!("{case:?}"), stats, violations, counters, sample: json!({"case": case}) }
 }
 
+/// the HTTP/2 pairs: sizes straddling the frame, window and buffer boundaries, both directions,
+/// concurrent streams, padded DATA, chunked HTTP/1.1 uploads towards an h2c backend
+pub fn pair_cases(tier: Tier) -> Vec<super::h2pair::PairCase> {
+    use super::h2pair::{PairCase, Proto, Xfer};
+    let mut v = vec![];
+    let x = |up: usize, down: usize| Xfer { up, down };
+    let sizes: &[usize] = if tier == Tier::Quick { &[0, 1, 9, 16384, 16385, 65535, 65536, 100000] } else { &[0, 1, 8, 9, 10, 100, 4096, 16383, 16384, 16385, 16393, 32768, 65534, 65535, 65536, 65537, 131073, 300000] };
+    for (front, back) in [(Proto::H2, Proto::H1), (Proto::H2, Proto::H2), (Proto::H1, Proto::H2)] {
+        for &n in sizes {
+            v.push(PairCase::simple(front, back, vec![x(0, n)]));
+            if n > 0 {
+                v.push(PairCase::simple(front, back, vec![x(n, 7)]));
+            }
+        }
+        v.push(PairCase::simple(front, back, vec![x(30000, 30000), x(0, 70000), x(70000, 0)]));
+        // (buffer_size below 16393 is refused at configuration load whenever HTTP/2 is in play)
+        for bs in [16393u64, 65536] {
+            let mut c = PairCase::simple(front, back, vec![x(40000, 40000)]);
+            c.buffer_size = bs;
+            v.push(c);
+        }
+        if front == Proto::H2 {
+            for pad in [1u8, 255] {
+                let mut c = PairCase::simple(front, back, vec![x(20000, 5)]);
+                c.h2_padding = Some(pad);
+                c.upload_frame = 5000;
+                v.push(c);
+            }
+            let mut c = PairCase::simple(front, back, vec![x(50000, 9)]);
+            c.upload_frame = 1;
+            c.xfers[0].up = 300;
+            v.push(c);
+        } else {
+            for chunk in [1usize, 1000, 16384, 70000] {
+                let mut c = PairCase::simple(front, back, vec![x(if chunk == 1 { 200 } else { 70000 }, 9)]);
+                c.h1_chunk = Some(chunk);
+                v.push(c);
+            }
+        }
+    }
+    v
+}
+
+fn pair_profile(tier: Tier) -> ChoiceProfile {
+    ChoiceProfile { read_faults: vec![FdClass::Front, FdClass::Back], write_faults: vec![FdClass::Front, FdClass::Back], max_points_per_class: if tier == Tier::Quick { 3 } else { 8 }, event_order: false, ..Default::default() }
+}
+
+pub fn run_pair_item(tier: Tier, item: usize) -> ItemResult {
+    let all = pair_cases(tier);
+    let case = all[item].clone();
+    let mut violations = vec![];
+    let c2 = case.clone();
+    let stats = explore::search(
+        if tier == Tier::Quick { 1 } else { 2 },
+        if tier == Tier::Quick { 14 } else { 1500 },
+        |prefix| {
+            let c = c2.clone();
+            let p = prefix.to_vec();
+            match worker::isolated(move || super::h2pair::run_pair("C01", &c, p.clone(), pair_profile(tier))) {
+                Ok(r) => r,
+                Err(status) => crashed_run(prefix, &status),
+            }
+        },
+        |vector, key, desc| {
+            let weight = vector.iter().filter(|c| **c != 0).count() as u64 * 1000 + case.xfers.iter().map(|x| x.up + x.down).sum::<usize>() as u64 / 1000;
+            violations.push((key.to_owned(), desc.to_owned(), json!({"part": "pairs", "case": case, "choices": vector}), weight));
+        },
+    );
+    let mut counters = BTreeMap::new();
+    counters.insert("sim_executions".to_owned(), stats.executions);
+    ItemResult { item, label: format!("{case:?}"), stats, violations, counters, sample: json!({"part": "pairs", "case": case}) }
+}
+
 pub fn run(ctx: &Ctx) -> Coverage {
     let tier = ctx.tier();
     let n = cases(tier).len();
     let results = explore::run_sharded(ctx, n, "c01", |i| run_item(tier, i));
-    summarize(ctx, &results, "HTTP/1.1 client -> worker -> HTTP/1.1 backend exchanges: body framing {Content-Length, chunked with 4 chunk patterns, close-delimited} x direction {request, response, both} x sizes straddling 4096 / 16384 / buffer_size x buffer_size {4096, 16393} x 2 keep-alive requests; for each scenario every schedule with at most d deviations: short or would-block read/write on the client-side and backend-side sockets (first 6 syscalls of each class), peer messages cut at 10 protocol boundaries, reversed / split readiness delivery")
+    let np = pair_cases(tier).len();
+    let pair_results = explore::run_sharded(ctx, np, "c01-pairs", |i| run_pair_item(tier, i));
+    let mut cov = Coverage::aggregate();
+    cov.absorb("b-h2-pairs", summarize(ctx, &pair_results, "HTTP/2 (TLS) client -> HTTP/1.1 backend, HTTP/2 client -> h2c backend, HTTP/1.1 client -> h2c backend: download and upload sizes straddling the 9-byte frame header, the 16384-byte frame, buffer_size and the 65535-byte windows, three concurrent transfers, session buffers of 16393 and 65536 bytes, padded DATA (1 and 255 bytes), 1-byte DATA frames, chunked HTTP/1.1 uploads (1 / 1000 / 16384 / 70000-byte chunks) towards an h2c backend; every schedule with at most d deviations; bodies at the backend and at the client must equal what was sent and end cleanly"));
+    cov.absorb("a-h1-h1", summarize(ctx, &results, "HTTP/1.1 client -> worker -> HTTP/1.1 backend exchanges: body framing {Content-Length, chunked with 4 chunk patterns, close-delimited} x direction {request, response, both} x sizes straddling 4096 / 16384 / buffer_size x buffer_size {4096, 16393} x 2 keep-alive requests; for each scenario every schedule with at most d deviations: short or would-block read/write on the client-side and backend-side sockets (first 6 syscalls of each class), peer messages cut at 10 protocol boundaries, reversed / split readiness delivery"));
+    cov
 }
 
 pub fn summarize(ctx: &Ctx, results: &[ItemResult], rule: &str) -> Coverage {
@@ -345,6 +423,15 @@ pub fn summarize(ctx: &Ctx, results: &[ItemResult], rule: &str) -> Coverage {
 }
 
 pub fn replay(ctx: &Ctx, case: &Value) -> Coverage {
+    if case["part"] == "pairs" {
+        let c: super::h2pair::PairCase = serde_json::from_value(case["case"].clone()).unwrap_or_else(|e| crate::common::machinery_error(&format!("bad replay case: {e}")));
+        let choices: Vec<u32> = serde_json::from_value(case["choices"].clone()).unwrap_or_default();
+        let r = worker::isolated(move || super::h2pair::run_pair("C01", &c, choices, pair_profile(Tier::Thorough))).unwrap_or_else(|s| crashed_run(&[], &s));
+        for (k, d) in r.violations {
+            ctx.violation(k, d, case.clone());
+        }
+        return Coverage { states: 1, transitions: 1, evaluations: 1, distinct_nontrivial: 1, distinct_outcomes: 1, rule: "replay".into(), ..Default::default() };
+    }
     let c: Case = serde_json::from_value(case["case"].clone()).unwrap_or_else(|e| crate::common::machinery_error(&format!("bad replay case: {e}")));
     let choices: Vec<u32> = serde_json::from_value(case["choices"].clone()).unwrap_or_default();
     let r = worker::isolated(move || run_case(&c, choices, profile())).unwrap_or_else(|s| crashed_run(&[], &s));
